@@ -141,7 +141,22 @@ def hist_ops(version):
         with RngStub(fn=lambda i, m: np.resize(u, m)).installed():
             return o.tau_exit_prob(b_clampA.copy(), le_nodes.copy()), o.tau_exit_prob(b_mid.copy(), le_nodes.copy())
 
-    ops = [op_nodes, op_mid, op_clampA, op_clampB, op_energy, op_call, op_call_clamp]
+    def op_rejected(o):
+        # a call that is (correctly) rejected because an energy is outside the table must leave the object usable
+        try:
+            o.tau_exit_prob(b_mid.copy(), np.where(np.arange(n) == 3, 12.5, le_mid))
+        except Exception as ex:
+            return "raised"
+        return "returned"
+
+    def op_rejected_low(o):
+        try:
+            o.tau_exit_prob(b_nodes[:1].copy(), np.array([5.0]))
+        except Exception as ex:
+            return "raised"
+        return "returned"
+
+    ops = [op_nodes, op_mid, op_clampA, op_clampB, op_energy, op_call, op_call_clamp, op_rejected, op_rejected_low]
     return ops
 
 
@@ -178,6 +193,18 @@ def run(ctx):
         if ver == 3 and p is not None:
             k = int(ctx.rng.integers(len(le)))
             ctx.sample({"version": 3, "log_e_nu": le[k], "beta_rad": b[k], "pexit": p[k]})
+        # mono-energetic batches (every event the same energy, as a mono spectrum produces them) and batches of one
+        for e_mono in [float(lax[0]), float(lax[7]), float(0.5 * (lax[10] + lax[11])), float(lax[-1]), 8.0]:
+            v, p1 = judge_points(ver, np.full(len(bpts), e_mono), bpts.copy())
+            ctx.tick(len(bpts), ("mono_batch", ver, e_mono))
+            for c, i, e, o in v[:50]:
+                ctx.violation(c, {"kind": "point_batch", "version": ver, "le": [e_mono] * len(bpts), "b": bpts.tolist(), "idx": int(i)}, e, o,
+                              alt_case={"kind": "point_batch", "version": ver, "le": [e_mono] * len(bpts), "b": bpts.tolist(), "idx": int(i)})
+            for bb in clamps:
+                v, _ = judge_points(ver, np.array([e_mono]), np.array([bb]))
+                ctx.tick(1, ("single", ver))
+                for c, i, e, o in v:
+                    ctx.violation(c, {"kind": "point", "version": ver, "le": [e_mono], "b": [float(bb)]}, e, o)
         # same-value clamp: beta < beta_min bit-identical to beta_min
         lo_b = np.array([0.0, bax[0] / 2, np.nextafter(bax[0], 0)])
         for lb in lo_b:
@@ -222,6 +249,9 @@ def replay(case):
     if k == "node":
         v, _ = judge_nodes(case["version"])
         return [(c, e, o) for c, ij, e, o in v if ij == (case["i"], case["j"])]
+    if k == "point_batch":
+        v, _ = judge_points(case["version"], np.array(case["le"]), np.array(case["b"]), fresh=True)
+        return [(c, e, o) for c, i, e, o in v]
     if k == "point":
         v, _ = judge_points(case["version"], np.array(case["le"]), np.array(case["b"]), fresh=True)
         return [(c, e, o) for c, i, e, o in v]
